@@ -109,9 +109,44 @@ def rule_efforder(ctx, prop: str) -> RuleResult:
         res.add(Finding("EFFORDER", NE, fcase[0][2].lineno, "stmts_effs", "loop-havoc-prefix",
                         "the effects of a loop body are not prefixed by `E.BindEnv(globenv([s]))`: configuration fields the loop itself writes keep their pre-loop value in the analysis of every "
                         "iteration, so a read guarded by such a field (reachable only from the second iteration on) is not seen and delete_config / write_config / call_eqv accept a change of a value that is read later"))
+    # evaluating an expression evaluates its sub-expressions: in expr_effs every expression-typed child of a
+    # constructor (per the ADT) contributes its OWN effects — `expr_effs(e.F)` / `list_expr_effs(e.F)` / a
+    # comprehension over e.F.  Lifting a child into the coordinates of an E.Read (`lift_es(e.idx)`) is not that:
+    # a configuration field read inside the index of a right-hand-side read (`x[CFG.a]`) then is no read at all
+    # and delete_config / write_config accept changing it
+    fe = ix.func(NE, "expr_effs")
+    res.analysed.append(f"{NE}:expr_effs")
+    esubj = ([a for a in fe.params()] or ["e"])[0]
+    mod = ctx.adts["LoopIR"]
+    n_child = 0
+    for ctors, body, node in _case_of(fe, esubj):
+        for K in ctors:
+            if K not in mod.ctors:
+                continue
+            for fld in mod.ctor(K).fields:
+                if fld.type not in ("expr", "w_access"):
+                    continue
+                n_child += 1
+                res.instances += 1
+                res.nontrivial += 1
+                want = f"{esubj}.{fld.name}"
+                ok = False
+                for st in body:
+                    for k in ast.walk(st):
+                        if isinstance(k, ast.Call) and last_name(k) in OPERAND_FUNCS and k.args and ast.unparse(k.args[0]) == want:
+                            ok = True
+                        if isinstance(k, ast.comprehension) and ast.unparse(k.iter) == want:
+                            ok = True
+                res.ob(ok)
+                if not ok:
+                    res.add(Finding("EFFORDER", NE, node.lineno, "expr_effs", f"child-effects:{K}.{fld.name}",
+                                    f"expr_effs, case {K}: the effects of the sub-expression(s) `{want}` are not collected (no expr_effs / list_expr_effs of it). A configuration read inside "
+                                    f"`{want}` — `y[0] = x[CFG.a]` — is then no read at all: delete_config(CFG.a = 3) in front of it is accepted and the procedure reads the stale value"))
+    if n_child < 5:
+        raise AnalysisError(f"EFFORDER: expected >= 5 expression-typed children over the cases of expr_effs, found {n_child}")
     if n_cases < 5:
         raise AnalysisError(f"EFFORDER: expected >= 5 statement cases with operand reads and an own effect in stmts_effs, found {n_cases}")
-    res.floor = 6
+    res.floor = 11
     return res
 
 
